@@ -77,6 +77,16 @@ def run_case(which, workroot):
     for i, v in enumerate(a):
         it.store_bytes(interp.Ptr(ab.obj, ab.off + i), v, 1, "setup")
     h = it.new_buffer(160, "h", False, [0] * 160)
+    if which == "mul_l":
+        # the fixed addition chain of ge25519_mul_l (main-subgroup test): the multiple it returns must be the group order
+        p = it.new_buffer(160, "p", False, [0] * 160)
+        put(p, limb.pconst(1), "p3")
+        it.call(N("ge25519_mul_l"), [h, p])
+        got = get(h)
+        L = 2 ** 252 + 27742317777372353535851937790883648493
+        if got != limb.pconst(L):
+            raise Mismatch("ge25519_mul_l(P) is not L * P: multiple %r" % (sorted(got.items())[:2],))
+        return dict(ir_steps=it.steps, multiple="L = 2^252 + 27742317777372353535851937790883648493")
     if which == "scalarmult_base":
         it.call(N("ge25519_scalarmult_base"), [h, ab])
     else:
@@ -156,5 +166,5 @@ def run(which, workroot):
 
 
 if __name__ == "__main__":
-    for c in (("scalarmult_base", "scalarmult", "base_table") if sys.argv[1] == "all" else [sys.argv[1]]):
+    for c in (("scalarmult_base", "scalarmult", "base_table", "mul_l") if sys.argv[1] == "all" else [sys.argv[1]]):
         print(json.dumps(run(c, sys.argv[2]), default=str))
